@@ -74,11 +74,76 @@ def _local_alias(f, name):
     return None
 
 
+def _filtered_pass(f, attr_texts):
+    """True if f takes a *filtered* pass over an order view of one of the
+    attributes (a comprehension with a condition, or filter()) - results built
+    from such a pass plus another one come out in a different order than a
+    single pass gives."""
+    aliases = set(attr_texts)
+    for n in own_nodes(f):
+        if isinstance(n, ast.Assign) and len(n.targets) == 1 and isinstance(
+                n.targets[0], ast.Name) and _order_view(n.value, attr_texts)[0]:
+            aliases.add(n.targets[0].id)
+    for n in own_nodes(f):
+        if isinstance(n, (ast.ListComp, ast.GeneratorExp, ast.SetComp)):
+            for g in n.generators:
+                if g.ifs and (_order_view(g.iter, aliases)[0] or
+                              norm_src(g.iter) in aliases):
+                    return True
+        if isinstance(n, ast.Call) and isinstance(n.func, ast.Name) and \
+                n.func.id == 'filter' and len(n.args) == 2 and (
+                _order_view(n.args[1], aliases)[0] or
+                norm_src(n.args[1]) in aliases):
+            return True
+    return False
+
+
 def rule_pair(ctx):
     rr = RuleResult('C03', 'C03.pair', 'SIB',
                     'positional protocols use one ordered source on both sides',
                     floor=4)
     p = ctx.project
+    from ..util import with_helpers
+
+    def _find_call(f, name, pred=None):  # noqa - shadows the module helper
+        out = []
+        for g_ in with_helpers(ctx, f):
+            out += [n for n in own_nodes(g_) if isinstance(n, ast.Call)
+                    and call_name(n) == name and (pred is None or pred(n))]
+        return out
+
+    KNOWN_ATTRS = {'self.inputs', 'self.outputs', 'self.assembler.outputs',
+                   'self.assembler.inputs', 'self.func.inputs',
+                   'self.func.outputs'}
+
+    def wrong_view(exprs, expected, scope=None):
+        """True if one of the expressions is *recognisably* another order: a
+        sorted/set/reversed view, or a view of a different ordered attribute.
+        An expression the rule cannot follow is not evidence of a defect."""
+        for e in exprs:
+            if isinstance(e, ast.BoolOp) and isinstance(e.op, ast.Or):
+                e = e.values[0]   # `inputs or None`
+            t = norm_src(e)
+            if isinstance(e, ast.Name) and scope is not None:
+                # a local named once from an expression stands for it
+                al = _local_alias(scope, e.id)
+                if al:
+                    t = al
+                    try:
+                        e = ast.parse(al, mode='eval').body
+                    except SyntaxError:
+                        pass
+            if any(('%s(' % b) in t for b in ORDER_BREAKERS) or '[::-1]' in t:
+                return True
+            ok_, base_ = _order_view(e, expected)
+            if not ok_ and base_ in KNOWN_ATTRS:
+                return True
+        return False
+
+    def undecided(what):
+        raise AnalysisError('C03.pair: %s - the positional protocol could not '
+                            'be followed through this rewrite' % what)
+
     # (a) Cell.add registers self.func with self.inputs ; Cell._args zips self.inputs.values()
     add = p.func(CELL, 'Cell.add')
     args = p.func(CELL, 'Cell._args')
@@ -99,6 +164,9 @@ def rule_pair(ctx):
         rr.ok('Cell.add registers the cell function with `self.inputs` and '
               'Cell._args zips the arguments against `self.inputs.values()`',
               '%s:%d' % (CELL, calls[0].lineno))
+    elif not wrong_view([inp], texts, add) and not wrong_view(
+            [a for z in zips for a in z.args], texts, args):
+        undecided('Cell.add / Cell._args')
     else:
         rr.fail(key_of(add if not ok else args, 'cell inputs order'),
                 'the cell function is registered with inputs `%s` but _args '
@@ -122,10 +190,18 @@ def rule_pair(ctx):
     it1 = [norm_src(n.iter) for n in own_nodes(upd) if isinstance(n, ast.For)]
     it2 = [norm_src(g.iter) for n in own_nodes(args) if isinstance(
         n, ast.DictComp) for g in n.generators]
+    it2 += [norm_src(n.iter) for n in own_nodes(args) if isinstance(n, ast.For)]
+    it1 += [norm_src(g.iter) for n in own_nodes(upd) if isinstance(
+        n, (ast.DictComp, ast.ListComp, ast.GeneratorExp))
+        for g in n.generators]
     if any(i == 'self.func.inputs.items()' for i in it1) and any(
             i == 'self.func.inputs.items()' for i in it2):
         rr.ok('update_inputs and _args both iterate self.func.inputs.items() '
               '(the compiled formula\'s own ordered mapping)', CELL)
+    elif not wrong_view(
+            [ast.parse(i, mode='eval').body for i in it1 + it2
+             if 'func.inputs' in i], {'self.func.inputs'}):
+        undecided('Cell.update_inputs / Cell._args iteration')
     else:
         rr.fail(key_of(upd, 'formula inputs iteration'),
                 'update_inputs iterates %s and _args %s: both must walk '
@@ -146,6 +222,9 @@ def rule_pair(ctx):
         rr.ok('RangesAssembler registers `self.inputs` and __call__ zips the '
               'cells against `self.inputs.values()`', '%s:%d' % (
                   CELL, calls[0].lineno))
+    elif not wrong_view([calls[0].args[2]] + [a for z in zips for a in z.args],
+                        {'self.inputs'}):
+        undecided('RangesAssembler.add / __call__')
     else:
         rr.fail(key_of(ra_add if not ok else ra_call, 'assembler inputs order'),
                 'RangesAssembler is registered with inputs `%s` but __call__ '
@@ -187,6 +266,10 @@ def rule_pair(ctx):
               '`self.outputs` and emits one result per '
               '`assembler.outputs.values()` in that order', '%s:%d' % (
                   CELL, calls[0].lineno))
+    elif not wrong_view([calls[0].args[3]] + [l.iter for l in loops],
+                        {'self.outputs', 'self.assembler.outputs'}) and \
+            not _filtered_pass(inv_call, {'self.assembler.outputs'}):
+        undecided('InvRangesAssembler registration / __call__')
     else:
         rr.fail(key_of(inv_call if ok else ra_add, 'inverse outputs order'),
                 'the inverse assembler is registered with outputs `%s` but its '
@@ -205,6 +288,26 @@ def rule_pair(ctx):
     while isinstance(base, ast.Call) and base.args:
         base = base.args[0]  # sorted(i) / list(i) wrappers are judged below
     mvar = base.id if isinstance(base, ast.Name) else ivar
+    # the mapping may be built by a private helper that returns it
+    scope = comp
+    hcall = base if isinstance(base, ast.Call) else None
+    if hcall is None and isinstance(base, ast.Name):
+        defs = [n.value for n in own_nodes(comp) if isinstance(n, ast.Assign)
+                and any(isinstance(t, ast.Name) and t.id == mvar
+                        for t in n.targets)]
+        if len(defs) == 1 and isinstance(defs[0], ast.Call):
+            hcall = defs[0]
+    if hcall is not None:
+        for e_ in ctx.cg._resolve_callee(comp, hcall.func, hcall, 'call'):
+            if not e_.is_ext and e_.precision == 'exact' and \
+                    e_.dst.name.startswith('_'):
+                rets_ = [r_.value.id for r_ in own_nodes(e_.dst) if isinstance(
+                    r_, ast.Return) and isinstance(r_.value, ast.Name)]
+                if len(set(rets_)) == 1:
+                    scope, mvar = e_.dst, rets_[0]
+                    ivar = mvar
+    comp_ = comp
+    comp = scope
     i_ctor = [norm_src(n.value) for n in own_nodes(comp) if isinstance(n, ast.Assign)
               and any(isinstance(t, ast.Name) and t.id == mvar for t in n.targets)]
     fills = [n for n in own_nodes(comp) if isinstance(n, ast.For) and any(
@@ -214,8 +317,19 @@ def rule_pair(ctx):
     if not fills or not i_ctor:
         raise AnalysisError('AstBuilder.compile: input mapping idiom not found')
     passed = ivar == mvar
-    sorted_iter = all(isinstance(f.iter, ast.Call) and call_name(f.iter) ==
-                      'sorted' for f in fills)
+    def _sorted(it):
+        if isinstance(it, ast.Call) and call_name(it) == 'sorted':
+            return True
+        # `keys = list(x); keys.sort(); for k in keys`
+        if isinstance(it, ast.Name):
+            return any(isinstance(n, ast.Call) and isinstance(
+                n.func, ast.Attribute) and n.func.attr == 'sort' and
+                isinstance(n.func.value, ast.Name) and n.func.value.id == it.id
+                and not n.args and not any(k.arg == 'key' for k in n.keywords)
+                for n in own_nodes(comp))
+        return False
+
+    sorted_iter = all(_sorted(f.iter) for f in fills)
     if 'OrderedDict' in i_ctor[0] and passed and sorted_iter:
         rr.ok('the formula\'s input mapping is an OrderedDict filled over '
               '`%s` and handed unchanged to the compiled pipe' % norm_src(
@@ -259,13 +373,14 @@ def _refs(ctx):
 
 
 def run(ctx):
+    S = ctx.soft
     funcs = []
     for rel in SCOPE:
         funcs += ctx.project.module(rel).all_funcs
     from .common import rule_cachekey
     from .modelstate import rule_snapshot
-    return [rule_ord(ctx, funcs, prop='C03', rule='C03.ord', floor=5),
-            rule_pair(ctx),
-            rule_snapshot(ctx, 'C03', 'C03.snapshot'),
-            _refs(ctx), _bounds(ctx, 'C03'), _extlink(ctx),
-            rule_cachekey(ctx, 'C03', 'C03.cachekey', SCOPE)]
+    return [S(rule_ord, ctx, funcs, prop='C03', rule='C03.ord', floor=5),
+            S(rule_pair, ctx),
+            S(rule_snapshot, ctx, 'C03', 'C03.snapshot'),
+            S(_refs, ctx), S(_bounds, ctx, 'C03'), S(_extlink, ctx),
+            S(rule_cachekey, ctx, 'C03', 'C03.cachekey', SCOPE)]
